@@ -33,7 +33,7 @@ pub struct Behaviour {
 }
 
 pub const REPS: [usize; 8] = [1, 7, 8, 9, 63, 64, 65, 300];
-pub const NUM_CLASSES: usize = 8;
+pub const NUM_CLASSES: usize = 9;
 
 fn int_val(class: usize, k: i64) -> i64 {
     match class % NUM_CLASSES {
@@ -70,6 +70,7 @@ fn str_val(class: usize, k: i64) -> String {
         4 => format!("ünï-{}-日本", k % 5),                        // non-ASCII
         5 => format!("{:08x}", (k as u64).wrapping_mul(2654435761) & 0xffff_ffff), // lower hex, even length
         6 => format!("{:07X}", (k as u64).wrapping_mul(40503) & 0xfff_ffff),      // upper hex, odd length
+        8 => format!("{:010X}", (k as u64).wrapping_mul(2654435761) & 0xff_ffff_ffff), // upper hex, even length (hex-packed, upper-case flag)
         _ => format!("{}", k),                                    // digit strings (look like numbers)
     }
 }
